@@ -316,7 +316,8 @@ def build_emulsion(case, inputs):
     dim = case["dim"]
     grid = None
     if case.get("grid") == "given":
-        grid = pde.UnitGrid([8] * dim, periodic=[True, False, True][:dim])
+        # a box of length 8 with cells of size 1/4 (NOT a unit grid: cell counts and physical lengths differ), mixed periodicity
+        grid = pde.CartesianGrid([(0, 8)] * dim, 32, periodic=[True, False, True][:dim])
     em = droplets.Emulsion([droplets.SphericalDroplet(p, r) for p, r in zip(inputs["pos"], inputs["rad"])])
     return em, grid
 
@@ -642,6 +643,9 @@ class RemoveOverlapping(RemoveOverlappingBase):
         yield dict(n=4, pos=[pad(-2.5), pad(-1.5), pad(0.0), pad(1.05)], rad=[0.01, 0.6, 1.0, 0.01], min_distance=0.0)
         yield dict(n=4, pos=[pad(1.05), pad(0.0), pad(-1.5), pad(-2.5)], rad=[0.01, 1.0, 0.6, 0.01], min_distance=0.0)
         yield dict(n=3, pos=[pad(0.0), pad(0.1), pad(3.0)], rad=[2.0, 0.05, 0.9], min_distance=0.2)
+        # NEARLY tied radii: the marginally smaller droplet comes first - it is the one to remove (no tolerance in `at least as large`)
+        yield dict(n=2, pos=[pad(0.0), pad(1.0)], rad=[1.0, 1.000002], min_distance=0.0)
+        yield dict(n=3, pos=[pad(4.0), pad(0.0), pad(1.0)], rad=[0.3, 2.0, 2.0 + 1e-9], min_distance=0.0)
         for t in range(30 if tier == "quick" else 600):
             n = rng.choice([3, 4, 5, 6, 8])
             yield dict(n=n, pos=[[rng.uniform(0, 6) for _ in range(d)] for _ in range(n)],
